@@ -66,7 +66,11 @@ func main() {
 			fmt.Println(name, "inlinable:", e.inlinable(f), "recursive:", e.recursive[f], "mods:", fmtMods(e.mods[f]))
 			continue
 		}
+		tf := time.Now()
 		r := e.verifyFunc(f)
+		if d := time.Since(tf).Seconds(); d > 1.5 {
+			fmt.Fprintf(os.Stderr, "gen %-40s %.1fs\n", name, d)
+		}
 		results = append(results, r)
 		obs = append(obs, r.Obligations...)
 	}
